@@ -223,6 +223,17 @@ func c11Build(r *core.Rng, fresh ...int) *c11Target {
 		}
 	}
 	walk(t.root, 0)
+	// an encapsulation list with a zero-string entry in front of a real pair (accepted by SetEncap in one call)
+	for _, s := range t.stacks {
+		if !s.IsReadOnly() && r.Chance(1, 8) {
+			s.SetEncap("", []string{"<", ">"})
+		}
+	}
+	for _, cd := range t.conds {
+		if !cd.IsReadOnly() && r.Chance(1, 8) {
+			cd.SetEncap("", []string{"'"})
+		}
+	}
 	// a past: some stacks have been popped from, re-pushed, had an element re-placed or inserted (whatever a mutator leaves
 	// for the next query to tidy up is then still lying around)
 	for _, s := range t.stacks {
@@ -378,6 +389,27 @@ func c11Sequential(c *core.Ctx) {
 				return
 			}
 		}
+	}
+	if c.Idx%4 == 0 {
+		// "the same answer when repeated", for a comparison whose operands hold maps that differ in ONE value (nil
+		// against a value) among several equal ones: the verdict is a function of the operands, not of the order in which
+		// a map happens to be walked
+		mkm := func(odd any) map[string]any {
+			return map[string]any{"k1": 1, "k2": "two", "k3": odd, "k4": 4.5, "k5": true, "k6": "six", "k7": 7}
+		}
+		ma, mb := stackage.And().Push("lead", mkm(nil), t.root), stackage.And().Push("lead", mkm(5), t.root)
+		ca, cb := stackage.Cond("k", stackage.Eq, mkm(nil)), stackage.Cond("k", stackage.Eq, mkm(5))
+		first, firstC := ma.IsEqual(mb) == nil, ca.IsEqual(cb) == nil
+		for i := 0; i < 40; i++ {
+			if got, gotC := ma.IsEqual(mb) == nil, ca.IsEqual(cb) == nil; got != first || gotC != firstC {
+				c.Violatef("unstable:IsEqual:maps", map[string]any{"tree": t.tree}, "IsEqual on unchanged operands holding 7-key maps that differ in one value (nil vs 5) answered equal=%v on call 1 and equal=%v on call %d", first, got, i+2)
+				return
+			}
+		}
+		if first || firstC {
+			c.Count("map-pairs.reported-equal-consistently") // (a wrong verdict is C05's business; consistency is this property's)
+		}
+		c.Count("repeated-isequal-on-nil-vs-value-maps")
 	}
 	c.Count("trees.sequential")
 	if t.tree.Depth() >= 2 && len(t.conds) > 0 {
